@@ -173,8 +173,32 @@ func histOracle(run *vh.Run, h appdrv.History, rs []appdrv.Resp, finalVals map[s
 	// block-seen messages), from which it decides itself when a configuration has to be started
 	ownSeen := map[string]uint64{}
 	ownStarted := map[int]bool{}
+	lastEnd := int64(0)
 	for i, c := range h.Calls {
+		eonBefore := a.EONCounter
 		appdrv.Exec(a, c)
+		if c.Kind == "end" && rs[i].Panic == "" {
+			lastEnd = c.Height
+		}
+		// the check-in update fork, decided by the oracle itself from the genesis, the height of
+		// the block being executed and the eon counter: a repeated check-in is dismissed as
+		// "already seen" exactly before the fork and replaces the key from the fork on
+		if c.Kind == "deliver" && rs[i].Panic == "" {
+			if m, ok := appdrv.MessageOf(c.Tx); ok && m.GetCheckIn() != nil {
+				if _, signer, ok := appdrv.DecodeTx(c.Tx); ok {
+					_, known := ownIDs[string(signer)]
+					active := ownForkActive(h.Genesis, lastEnd+1, eonBefore)
+					if rs[i].Code == 2 && !(known && !active) {
+						run.Violate(vh.Violation{Key: "C12:check-in-dismissed-although-it-must-count", What: fmt.Sprintf("call %d (%s): a check-in is dismissed as already seen in block %d (first check-in of the sender: %v; check-in update fork active: %v)", i, c.Note, lastEnd+1, !known, active), Case: histCase{"hist", h}})
+						return
+					}
+					if rs[i].Code == 0 && known && !active {
+						run.Violate(vh.Violation{Key: "C12:check-in-replaced-before-the-fork", What: fmt.Sprintf("call %d (%s): a repeated check-in is accepted in block %d although the check-in update fork is not active", i, c.Note, lastEnd+1), Case: histCase{"hist", h}})
+						return
+					}
+				}
+			}
+		}
 		if c.Kind == "deliver" && rs[i].Panic == "" && rs[i].Code == 0 {
 			if m, ok := appdrv.MessageOf(c.Tx); ok && m.GetBlockSeen() != nil {
 				if _, signer, ok := appdrv.DecodeTx(c.Tx); ok {
@@ -285,6 +309,26 @@ func histOracle(run *vh.Run, h appdrv.History, rs []appdrv.Resp, finalVals map[s
 			run.Dist["effective_config_heights"]++
 		}
 	}
+}
+
+// ownForkActive: the rule of the check-in update fork as the documentation of forks.go states
+// it - a chain with an override is governed by the override's eon alone, any other chain by
+// "enabled and current height >= fork height" (a genesis without fork heights is migrated to
+// "disabled" by InitChain: never, unless the chain has an override; the legacy genesis format:
+// enabled at the height it names).
+func ownForkActive(g appdrv.Genesis, height int64, eon uint64) bool {
+	overrides := map[string]uint64{"shutter-gnosis-1000": 9, "shutter-chiado-102000": 13, "shutter-api-gnosis-1001": 13,
+		"shutter-service-chiado-1000": 9, "shutter-api-gnosis-1002": 0}
+	if e, ok := overrides[g.ChainID]; ok {
+		return eon >= e
+	}
+	if g.ForkNil {
+		return false
+	}
+	if g.ForkLegacy {
+		return height >= g.ForkHeight
+	}
+	return g.ForkEnabled && height >= g.ForkHeight
 }
 
 type histCase struct {
